@@ -7,11 +7,16 @@ from . import props_c04  # noqa: F401
 from . import props_c07  # noqa: F401
 from . import props_c08  # noqa: F401
 from . import props_c10  # noqa: F401
+from . import reconsim
+
+OTHER = {'C13': reconsim}
 
 
 def _engine_for(prop):
     if prop in editsim.PLUGINS:
         return editsim
+    if prop in OTHER:
+        return OTHER[prop]
     raise KeyError(prop)
 
 
@@ -21,3 +26,19 @@ def engine_run(prop, seed, extra):
 
 def engine_replay(case):
     return _engine_for(case['property']).engine_replay(case)
+
+
+def minimise(case, fails):
+    m = _engine_for(case['property'])
+    if hasattr(m, 'minimise'):
+        return m.minimise(case, fails)
+    from .cli import generic_minimise
+    return generic_minimise(case, fails)
+
+
+def signature(case):
+    m = _engine_for(case['property'])
+    if hasattr(m, 'signature'):
+        return m.signature(case)
+    from .cli import generic_signature
+    return generic_signature(case)
